@@ -13,6 +13,8 @@
    LOOKUPS = ((type flags (SUB ...)) ...)
    SUB = (g11 (cov) delta) | (g12 (cov) (subst)) | (g21 (cov) ((g..)..)) | (g31 (cov) ((g..)..))
        | (g41 (cov) ((((in..) out) ...) ...)) | (p11 (cov) ADJ) | (p12 (cov) (ADJ ...))
+       | (c1 (cov) (RULES ...)) | (c2 (cov) ((class glyphs) ...) (RULES ...)) | (c3 ((set) ...) ACTS)
+   RULES = (((input tail) ACTS) ...)   ACTS = ((lookup-index sequence-index) ...)
    ADJ = _ | (x y dx) *)
 
 let ns x = List.map sx_n (lst x)
@@ -36,8 +38,14 @@ let font_of_sx (x : sx) : font =
       f_cmap = List.map (fun p -> match p with L [r; g] -> (sx_n r, sx_n g) | _ -> failwith "bad cmap") (lst cm) }
   | _ -> failwith "bad font"
 
+let acts_of_sx x = List.map (fun p -> match p with L [a; b] -> (sx_n a, sx_n b) | _ -> failwith "bad action") (lst x)
+let rules_of_sx x =
+  List.map (fun rs -> List.map (fun r -> match r with L [i; a] -> (ns i, acts_of_sx a) | _ -> failwith "bad rule") (lst rs)) (lst x)
 let sub_of_sx (x : sx) : subtable =
   match x with
+  | L [A "c1"; cov; rules] -> Ctx (SeqCtx1 (ns cov, rules_of_sx rules))
+  | L [A "c2"; cov; cls; rules] -> Ctx (SeqCtx2 (ns cov, List.map ns (lst cls), rules_of_sx rules))
+  | L [A "c3"; sets; acts] -> Ctx (SeqCtx3 (List.map ns (lst sets), acts_of_sx acts))
   | L [A "g11"; cov; d] -> Gsub1_1 (ns cov, sx_n d)
   | L [A "g12"; cov; s] -> Gsub1_2 (ns cov, ns s)
   | L [A "g21"; cov; r] -> Gsub2_1 (ns cov, List.map ns (lst r))
@@ -56,7 +64,12 @@ let lookups_of_sx (x : sx) : lookup list =
 
 let lns l = L (List.map an l)
 let sx_of_adj = function None -> A "_" | Some v -> L [az v.v_x; az v.v_y; az v.v_dx]
+let sx_of_acts a = L (List.map (fun (x, y) -> L [an x; an y]) a)
+let sx_of_rules rules = L (List.map (fun rs -> L (List.map (fun (i, a) -> L [lns i; sx_of_acts a]) rs)) rules)
 let sx_of_sub = function
+  | Ctx (SeqCtx1 (cov, rules)) -> L [A "c1"; lns cov; sx_of_rules rules]
+  | Ctx (SeqCtx2 (cov, cls, rules)) -> L [A "c2"; lns cov; L (List.map lns cls); sx_of_rules rules]
+  | Ctx (SeqCtx3 (sets, acts)) -> L [A "c3"; L (List.map lns sets); sx_of_acts acts]
   | Gsub1_1 (cov, d) -> L [A "g11"; lns cov; an d]
   | Gsub1_2 (cov, s) -> L [A "g12"; lns cov; lns s]
   | Gsub2_1 (cov, r) -> L [A "g21"; lns cov; L (List.map lns r)]
